@@ -762,7 +762,7 @@ class ConstrainedQuadraticModel(cyConstrainedQuadraticModel):
     def check_feasible(self, sample_like: SamplesLike, rtol: float = 1e-6, atol: float = 1e-8) -> bool:
         r"""Return the feasibility of the given sample.
 
-        A sample is feasible if all constraints are satisfied. A constraint's
+        A sample is feasible if all hard constraints are satisfied. A constraint's
         satisfaction is tested using the following equation:
 
         .. math::
@@ -800,7 +800,8 @@ class ConstrainedQuadraticModel(cyConstrainedQuadraticModel):
             has just a single constraint.
         """
         return all(datum.violation <= atol + rtol*abs(datum.rhs_energy)
-                   for datum in self.iter_constraint_data(sample_like))
+                   for datum in self.iter_constraint_data(sample_like)
+                   if not self.constraints[datum.label].lhs.is_soft())
 
     def fix_variable(self, v: Variable, value: float, *,
                      cascade: typing.Optional[bool] = None,
